@@ -217,6 +217,10 @@ func exploreOnce(s *session, st strategy) (*sx.Node, int) {
 		}
 	}
 	r.mu.Unlock()
+	if g := r.wireGarbled(true); g != "" && wrong == "" {
+		// C05: results are never corrupted by interleaved writes - reported through the `wrong` slot of the summary
+		wrong = g
+	}
 	return sx.L(sx.A("xobs"), sx.L(sx.A("stuck"), sx.B(stuck)), sx.L(sx.A("double"), sx.B(double)), obs, trace, sites,
 		sx.L(sx.A("wrong"), sx.B(wrong != ""), sx.S(wrong))), steps
 }
